@@ -13,7 +13,7 @@ import (
 // that are prefixes of one another, and strings with characters that need
 // escaping.
 var Names = []string{"x", "y", "a b", "", "AND", "attributes", "é", "x1", "1x", "_z", "NOT", "hasPrefix", "x.y", `q"`}
-var Values = []string{"", "x", "xy", "xyz", "é", `"`, `\`, "a b", "X", "\n", "<&>"}
+var Values = []string{"", "x", "xy", "xyz", "y", "yx", "é", `"`, `\`, "a b", "X", "\n", "<&>"}
 
 func genName() *rapid.Generator[string] {
 	return rapid.OneOf(rapid.SampledFrom(Names), rapid.SampledFrom(Names), rapid.StringMatching(`[a-zé_][a-z0-9_]{0,3}`), rapid.StringN(0, 4, 8))
@@ -76,7 +76,7 @@ func GenAttrs(t *rapid.T, c *Cond) map[string]string {
 	if c != nil {
 		for _, l := range c.Leaves() {
 			names = append(names, l.Name, l.Name)
-			vals = append(vals, l.Value, l.Value, l.Value+"z")
+			vals = append(vals, l.Value, l.Value, l.Value+"z", "z"+l.Value)
 			if len(l.Value) > 0 {
 				vals = append(vals, l.Value[:len(l.Value)-1])
 			}
